@@ -606,6 +606,20 @@ impl<'a> GExec<'a> {
         let built = self.build_proof(g, proof, &data_hash, "ApproveMessages", &body);
         let verdict = self.judge_proof(g, &built, &data_hash);
         let expect_ok = verdict.is_ok() && !resolved.is_empty();
+        if verdict.is_ok() && proof.tamper != Tamper::None {
+            ctx.count("probe.tampered_declaration_equals_an_installed_set");
+        }
+        if verdict.is_ok() && !proof.digest.honest() {
+            ctx.count("probe.misdelivered_proof_still_valid_here");
+        }
+        for m in resolved.iter() {
+            let twin = if m.source_chain == "ab" && m.message_id == "c" { Some(("a", "bc")) } else if m.source_chain == "a" && m.message_id == "bc" { Some(("ab", "c")) } else { None };
+            if let Some((c, i)) = twin {
+                if expect_ok && self.gws[g].m.status.contains_key(&(c.to_string(), i.to_string())) {
+                    ctx.count("probe.split_collision_pair_both_known");
+                }
+            }
+        }
         let st = self.state_hash();
         ctx.judged(
             &["C01", "C02", "C08"],
